@@ -223,14 +223,21 @@ func (s *Sys) CompareTargets(mod *Model, prop, oracle string) {
 }
 
 // PredictedFold folds the log with the model's own verdicts.
-// A transaction one of whose validations met an injected plugin transport fault has no verdict: the implementation treats
-// "no answer" as "not accepted" (FAILED, INVALID), and so does the prediction.
+// A transaction one of whose validations met an injected plugin transport fault has no predictable verdict: the
+// implementation treats "no answer" as "not accepted" (FAILED, INVALID) - unless it could not record that either (a store
+// fault on the status write) and asks the plugin again, which may then accept. So the prediction follows the records for
+// exactly those transactions, except that a candidate the plugin's rule rejects must fail in any case. (The first version
+// predicted INVALID outright: a false alarm in 2 of 25 000 thorough runs, where a failed status write sent the validation
+// round again.) What stays sharp: nothing is committed without an accepted document (C05's step monitor).
 func (s *Sys) PredictedFold() *Model {
 	if s.Plugin == nil || len(s.Plugin.ErrTx) == 0 {
 		return Fold(s.ModelLog(), nil)
 	}
 	return Fold(s.ModelLog(), func(tx *MTx, predicted bool) bool {
-		if s.Plugin.ErrTx[tx.Index] { // changes and rollbacks alike: both are validated
+		if s.Plugin.ErrTx[tx.Index] && predicted { // changes and rollbacks alike: both are validated
+			if committedByRecord(s.Rec.Txs[tx.Index]) {
+				return true
+			}
 			if tx.Fail == "" {
 				tx.Fail = "INVALID"
 			}
